@@ -206,7 +206,9 @@ func runC08(r *vk.Run) {
 			ts        int64
 		}
 		written := map[recKey]int{}
+		idxOf := map[string]string{}
 		for _, cs := range inv {
+			idxOf[cs.ID] = cs.Labels["idx"]
 			for j, f := range cs.Frames {
 				if j > 0 && f.TS < cs.Frames[j-1].TS {
 					ordered = false
@@ -220,6 +222,12 @@ func runC08(r *vk.Run) {
 		// every line carries its text under the calibrated message label, which would make each entry
 		// its own stream: drop it so that a stream is a container
 		ctrQuery := `{container=~".+"}`
+		// a stage that rewrites a label every record of a container inherits from the container's shared
+		// resource: each entry must get the rewrite exactly once
+		rewrite := rng.Chance(1, 3)
+		if rewrite {
+			ctrQuery += ` | label_format idx="{{ .idx }}-x"`
+		}
 		if msg {
 			ctrQuery += " | drop msg"
 		}
@@ -252,6 +260,10 @@ func runC08(r *vk.Run) {
 				}
 				seenSets[k] = true
 				for i, e := range st.Entries {
+					if want := idxOf[st.Labels["container_id"]]; rewrite && st.Labels["idx"] != want+"-x" || !rewrite && st.Labels["idx"] != want {
+						c.Fail("", fmt.Sprintf("limit %d: stream of container %s carries idx=%q (query %s)", L, st.Labels["container_id"], st.Labels["idx"], ctrQuery), det)
+						return
+					}
 					k := recKey{st.Labels["container_id"], e.Line, e.TS}
 					returned[k]++
 					if returned[k] > written[k] {
